@@ -387,6 +387,25 @@ fn token_tags(s: &Sentence) -> Vec<Vec<Option<String>>> {
         .collect()
 }
 
+/// sentence objects with a past: tags in several categories from either parser, a failed update in the middle of a tagged
+/// line (either format), a raw text; the round-trip oracles re-parse the written text into each of them
+fn used_sentences() -> Vec<Sentence<'static, 'static>> {
+    let mut v = Vec::new();
+    v.push(Sentence::from_tokenized("ab/x/y/z c/p/q/r d/s/t/u efg/v/w/x").unwrap());
+    v.push(Sentence::from_partial_annotation("a/x/y-b/z|c/p/q d/r/s/t|e/u").unwrap());
+    let mut s = Sentence::from_tokenized("xy/k/l/m z/n/o/p").unwrap();
+    let _ = s.update_partial_annotation("a/t1/t2|b/t3/t4 c/t5#d");
+    v.push(s);
+    let mut s = Sentence::from_partial_annotation("a/x|b/y|c/z").unwrap();
+    let _ = s.update_tokenized("a/t1/t2 b/t3/t4  c");
+    v.push(s);
+    let mut s = Sentence::from_tokenized("a/x/y b/z/w").unwrap();
+    let _ = s.update_partial_annotation("a/t1/t2|b/t3\0|c");
+    let _ = s.update_raw("pqrs");
+    v.push(s);
+    v
+}
+
 fn oracle_c03rt(s: &Sentence, fails: &mut Vec<(String, String)>) {
     let r = catch(|| {
         let mut buf = String::new();
@@ -404,6 +423,15 @@ fn oracle_c03rt(s: &Sentence, fails: &mut Vec<(String, String)>) {
         let (a, b) = (token_tags(s), token_tags(&s2));
         if a != b {
             return Err(format!("token tags {a:?} -> {b:?} via {buf:?}"));
+        }
+        // the same through the in-place parser, on sentence objects that held something else before
+        for (k, mut u) in used_sentences().into_iter().enumerate() {
+            u.update_tokenized(buf.as_str()).map_err(|e| format!("written text {buf:?} rejected by update_tokenized (used sentence #{k}): {e}"))?;
+            if u.as_raw_text() != s.as_raw_text() || u.boundaries() != s.boundaries() || token_tags(&u) != a {
+                return Err(format!(
+                    "update_tokenized({buf:?}) on used sentence #{k}: text {:?} labels {} token tags {:?}, written from text {:?} labels {} token tags {a:?}",
+                    u.as_raw_text(), labels_str(&u), token_tags(&u), s.as_raw_text(), labels_str(s)));
+            }
         }
         Ok(())
     });
@@ -461,6 +489,15 @@ fn oracle_c04rt(s: &Sentence, fails: &mut Vec<(String, String)>) {
         let (a, b) = (char_tags(s), char_tags(&s2));
         if a != b {
             return Err(format!("character tags {a:?} -> {b:?} via {buf:?}"));
+        }
+        // the same through the in-place parser, on sentence objects that held something else before
+        for (k, mut u) in used_sentences().into_iter().enumerate() {
+            u.update_partial_annotation(buf.as_str()).map_err(|e| format!("written text {buf:?} rejected by update_partial_annotation (used sentence #{k}): {e}"))?;
+            if u.as_raw_text() != s.as_raw_text() || u.boundaries() != s.boundaries() || char_tags(&u) != a {
+                return Err(format!(
+                    "update_partial_annotation({buf:?}) on used sentence #{k}: text {:?} labels {} character tags {:?}, written from text {:?} labels {} character tags {a:?}",
+                    u.as_raw_text(), labels_str(&u), char_tags(&u), s.as_raw_text(), labels_str(s)));
+            }
         }
         Ok(())
     });
